@@ -733,6 +733,7 @@ func (x *Exec) pushEdge(fn *ssa.Function, loops []*Loop, nodes map[nodeKey]*vnod
 
 func (x *Exec) loopEnv(fn *ssa.Function, l *Loop, st *State) *SpecEnv {
 	env := x.specEnv(x.entry, st)
+	var cur []string
 	for _, ins := range l.Header.Instrs {
 		phi, ok := ins.(*ssa.Phi)
 		if !ok {
@@ -741,6 +742,23 @@ func (x *Exec) loopEnv(fn *ssa.Function, l *Loop, st *State) *SpecEnv {
 		if phi.Comment != "" {
 			if v, ok := st.Regs[phi]; ok {
 				env.vars[phi.Comment] = SVal{V: v, T: phi.Type()}
+			}
+		}
+		cur = append(cur, phi.Comment)
+	}
+	// a renamed loop variable stays reachable under the name recorded from the unchanged tree
+	if x.inlineDepth == 0 {
+		al := x.w.loopNameAliases(fn, l.Ordinal, cur)
+		olds := make([]string, 0, len(al))
+		for k := range al {
+			olds = append(olds, k)
+		}
+		sort.Strings(olds)
+		for _, old := range olds {
+			if v, ok := env.vars[al[old]]; ok {
+				if _, taken := env.vars[old]; !taken {
+					env.vars[old] = v
+				}
 			}
 		}
 	}
@@ -951,6 +969,10 @@ func (x *Exec) loopMods(l *Loop, st *State) modSet {
 					} else if fc := x.w.ByPath[pp.Pkg.Path()].Contracts.Funcs[ContractKey(sc)]; fc != nil && !fc.Inline {
 						// a function under contract is itself obliged to leave every lock as it found it
 						touchesGhost = false
+					} else if fc == nil && sc.Parent() == nil && !fnMayTouchGhost(sc, 0) {
+						// a function without a contract (verified through its body) that makes no call at all that
+						// could change ghost state
+						touchesGhost = false
 					}
 				} else if _, isBuiltin := c.Value.(*ssa.Builtin); isBuiltin {
 					touchesGhost = false
@@ -1057,4 +1079,35 @@ func (x *Exec) callMayWriteHeap(c *ssa.CallCommon) bool {
 		}
 	}
 	return true
+}
+
+// fnMayTouchGhost: the function (or a function it calls, to a small depth) may change ghost state: it calls
+// something other than builtins and plain functions of the standard library's pure helpers.
+func fnMayTouchGhost(fn *ssa.Function, depth int) bool {
+	if depth > 4 || len(fn.Blocks) == 0 {
+		return true
+	}
+	for _, b := range fn.Blocks {
+		for _, ins := range b.Instrs {
+			ci, ok := ins.(ssa.CallInstruction)
+			if !ok {
+				continue
+			}
+			c := ci.Common()
+			if _, isBuiltin := c.Value.(*ssa.Builtin); isBuiltin {
+				continue
+			}
+			sc := c.StaticCallee()
+			if sc == nil {
+				return true
+			}
+			if pp := fnPkg(sc); pp != nil && (strings.HasPrefix(pp.Pkg.Path(), "strings") || strings.HasPrefix(pp.Pkg.Path(), "strconv") || strings.HasPrefix(pp.Pkg.Path(), "unicode") || strings.HasPrefix(pp.Pkg.Path(), "math")) {
+				continue
+			}
+			if fnMayTouchGhost(sc, depth+1) {
+				return true
+			}
+		}
+	}
+	return false
 }
